@@ -153,6 +153,14 @@ def ops(D):
     add("rvalue_ref_move_assign", "Ref& r, Ref& q", "std::move(r) = std::move(q);", {0: "view", 1: "view"}, "view")
     add("ref_assign_constptr_ref", "Ref& r, multi::array_ref<Tracked, DD, Tracked const*> const& q", "r = q;", {0: "view", 1: "view"}, "view")
     add("rvalue_ref_assign_constptr_ref", "Ref& r, multi::array_ref<Tracked, DD, Tracked const*> const& q", "std::move(r) = q;", {0: "view", 1: "view"}, "view")
+    # controls of the "no raw traversal of a view" rule (R04.viewflat / R05.viewflat): the first must be reported on every run, the guarded ones must not
+    add("ctl_view_rawbase", "Sub& v, CSub const& w", "multi::adl_copy_n(w.base(), w.num_elements(), v.base());", {0: "view", 1: "view"}, "view", "ctl")
+    add("ctl_view_rawbase_canon", "Sub& v, CSub const& w",
+        "if(v.layout() == typename Sub::layout_type(v.extensions()) && w.layout() == typename CSub::layout_type(w.extensions())) { multi::adl_copy_n(w.base(), w.num_elements(), v.base()); } else { v = w; }",
+        {0: "view", 1: "view"}, "view", "ctl")
+    if D == 1:
+        add("ctl_view_rawbase_unit", "Sub& v, CSub const& w", "if(std::as_const(v).stride() == 1 && w.stride() == 1) { multi::adl_copy_n(w.base(), w.size(), v.base()); } else { v = w; }",
+            {0: "view", 1: "view"}, "view", "ctl")
     if D >= 2:
         add("row_assign_row", "Arr& a, Arr const& b", "a[0] = b[1];", {0: "live", 1: "live"}, "view")
         add("view_fill", "Sub& v, typename Sub::value_type const& row", "v.fill(row);", {0: "view"}, "view")
